@@ -14,6 +14,9 @@ use crate::harness::{
     self,
     Kind,
     Polled,
+    Val,
+    pick_route,
+    value_status,
     ident,
     make_preconf,
     make_squeezed,
@@ -48,9 +51,11 @@ use vcommon::{
     *,
 };
 
-pub const RULE: &str = "case = one tx-status-manager service (subscription limit 1/2/3/8, subscription ttl 1h or 200ms virtual) \
+pub const RULE: &str = "case = one tx-status-manager service (subscription limit 1/2/3/8; subscription ttl 1h / 2.5s / 200ms virtual and status cache ttl 5ms / 40ms / 300ms / 5s, always different from each other, in both orders) \
 driven by a seeded history of publications (update_status / update_statuses / update_preconfirmations, single and batched, \
-with and without a barrier in between), subscriptions (draining / never reading / reading every k-th op), drops and clock \
+with and without a barrier in between; values are NOT unique: the latest value is re-published identically (1-3 times in a row, by any route, \
+also right after a subscriber attached), earlier values come back after resubmission cycles, identical entries appear twice in a batch and \
+different txs share identical Submitted values), subscriptions (draining / never reading / reading every k-th op), drops and clock \
 advances over 3 tx ids; evaluation = one subscriber stream judged offline against the publication log; a subscriber stream is \
 non-trivial (distinct key = behaviour + sequence of received kinds + failed/ended flags + number of owed statuses) if it \
 received >= 2 items or received >= 1 item and ended";
@@ -59,6 +64,7 @@ pub const ASSUMPTIONS: &[&str] = &[
     "final statuses (harness list, from the property text): Success, Failure, SqueezedOut, PreConfirmationSqueezedOut",
     "a get_status/subscribe round trip is a barrier: the service task handles queued writes before reads (biased select)",
     "completeness is owed only to subscribers that drained before each publication for their tx, inside the subscription ttl and before being dropped; the rest is judged for safety only and counted as excluded.*",
+    "only subscription_ttl limits what is owed to a subscriber; status_cache_ttl (always configured to a different value) must not matter to subscribers",
     "subscription success/failure against the limit is recorded, not judged (the property does not state it)",
     "a panic/stop of the service is reported as inconclusive, not as a violation",
 ];
@@ -79,6 +85,8 @@ pub struct Pub {
     pub kind: Kind,
     pub serial: u64,
     pub route: &'static str,
+    /// virtual time of the publication
+    pub at: Instant,
     /// exact status expected at the subscriber (known for the direct routes)
     pub full: Option<TransactionStatus>,
 }
@@ -103,6 +111,7 @@ pub struct SubRec {
     /// publications with index < complete_until are owed to a draining subscriber
     pub complete_until: usize,
     pub excluded_by: Option<&'static str>,
+    pub subscribed_at: Instant,
 }
 
 struct Sub {
@@ -155,14 +164,20 @@ fn item_str(i: &Item) -> String {
 }
 
 /// The oracle: judge one subscriber record against the publication log.
+/// Publications are NOT assumed to carry unique values: the same status value may
+/// be published several times for a tx (and even for different txs), so delivery
+/// is judged as an order-preserving matching of the received values into the
+/// sequence of publications for the tx since the subscription (greedy earliest
+/// match = pointwise minimal, hence complete), and completeness is judged on the
+/// sequence of values including repeats.
 /// Returns (signature, explanation) pairs.
-pub fn judge(sub: &SubRec, pubs: &[Pub], by_serial: &HashMap<u64, usize>) -> Vec<(&'static str, String)> {
+pub fn judge(sub: &SubRec, pubs: &[Pub], by_serial: &HashMap<u64, Vec<usize>>) -> Vec<(&'static str, String)> {
     let mut v: Vec<(&'static str, String)> = Vec::new();
-    let first_final_pub = pubs
-        .iter()
-        .find(|p| p.tx == sub.tx && p.idx >= sub.subscribed_at_pub && p.kind.is_final())
-        .map(|p| p.idx);
-    let mut last_idx: Option<usize> = None;
+    // the only publications that may be delivered, in publication order
+    let cand: Vec<&Pub> = pubs.iter().filter(|p| p.tx == sub.tx && p.idx >= sub.subscribed_at_pub).collect();
+    let first_final_pub = cand.iter().find(|p| p.kind.is_final()).map(|p| p.idx);
+    let mut next = 0usize; // first candidate not yet consumed by the matching
+    let mut delivered_count: HashMap<u64, usize> = HashMap::new();
     let mut seen_final = false;
     let mut seen_failed = false;
     for (pos, item) in sub.items.iter().enumerate() {
@@ -184,44 +199,69 @@ pub fn judge(sub: &SubRec, pubs: &[Pub], by_serial: &HashMap<u64, usize>) -> Vec
             }
             Item::Status(st) => {
                 let (kind, serial) = ident(st);
-                let p = serial.and_then(|s| by_serial.get(&s)).map(|i| &pubs[*i]);
-                let Some(p) = p else {
+                if kind.is_final() {
+                    seen_final = true;
+                }
+                let Some(serial) = serial else {
                     v.push(("unknown_status_delivered", format!("item {pos} ({}) was never published", item_str(item))));
                     continue;
                 };
-                if p.tx != sub.tx {
-                    v.push(("status_of_other_transaction", format!("item {pos} ({}) was published for tx{} not tx{}", item_str(item), p.tx, sub.tx)));
-                    continue;
-                }
-                if p.kind != kind {
-                    v.push(("status_kind_altered", format!("item {pos} is {} but publication #{} was {}", item_str(item), p.idx, p.kind.name())));
-                } else if let Some(full) = &p.full {
-                    if full != st {
-                        v.push(("status_content_altered", format!("item {pos}: delivered {st:?} published {full:?}")));
+                let n_delivered = {
+                    let c = delivered_count.entry(serial).or_insert(0);
+                    *c += 1;
+                    *c
+                };
+                match (next..cand.len()).find(|j| cand[*j].serial == serial) {
+                    Some(j) => {
+                        let p = cand[j];
+                        if p.kind != kind {
+                            v.push(("status_kind_altered", format!("item {pos} is {} but publication #{} was {}", item_str(item), p.idx, p.kind.name())));
+                        } else if let Some(full) = &p.full {
+                            if full != st {
+                                v.push(("status_content_altered", format!("item {pos}: delivered {st:?} published {full:?}")));
+                            }
+                        }
+                        if first_final_pub.is_some_and(|f| p.idx > f) {
+                            v.push((
+                                "status_published_after_first_final",
+                                format!(
+                                    "item {pos} ({}) can only be publication #{} but the first final status after subscribing was publication #{}",
+                                    item_str(item),
+                                    p.idx,
+                                    first_final_pub.unwrap_or(0)
+                                ),
+                            ));
+                        }
+                        next = j + 1;
                     }
-                }
-                if p.idx < sub.subscribed_at_pub {
-                    v.push((
-                        "status_published_before_subscription",
-                        format!("item {pos} ({}) is publication #{} but the subscription was made after {} publications", item_str(item), p.idx, sub.subscribed_at_pub),
-                    ));
-                }
-                if let Some(l) = last_idx {
-                    if p.idx == l {
-                        v.push(("duplicate_status", format!("item {pos} ({}) repeats publication #{}", item_str(item), p.idx)));
-                    } else if p.idx < l {
-                        v.push(("out_of_order", format!("item {pos} ({}) is publication #{} after publication #{l}", item_str(item), p.idx)));
+                    None => {
+                        let published_since = cand.iter().filter(|p| p.serial == serial).count();
+                        if published_since > 0 {
+                            if n_delivered > published_since {
+                                v.push((
+                                    "duplicate_status",
+                                    format!("item {pos} ({}): value delivered {n_delivered} times but published only {published_since} time(s) since the subscription", item_str(item)),
+                                ));
+                            } else {
+                                v.push((
+                                    "out_of_order",
+                                    format!("item {pos} ({}) was not published after the publications matched by the previous items", item_str(item)),
+                                ));
+                            }
+                        } else {
+                            let elsewhere: Vec<&Pub> = by_serial.get(&serial).map(|l| l.iter().map(|i| &pubs[*i]).collect()).unwrap_or_default();
+                            if elsewhere.iter().any(|p| p.tx == sub.tx) {
+                                v.push((
+                                    "status_published_before_subscription",
+                                    format!("item {pos} ({}) was published for this tx only before the subscription (made after {} publications)", item_str(item), sub.subscribed_at_pub),
+                                ));
+                            } else if let Some(p) = elsewhere.first() {
+                                v.push(("status_of_other_transaction", format!("item {pos} ({}) was published for tx{} not tx{}", item_str(item), p.tx, sub.tx)));
+                            } else {
+                                v.push(("unknown_status_delivered", format!("item {pos} ({}) was never published", item_str(item))));
+                            }
+                        }
                     }
-                }
-                if first_final_pub.is_some_and(|f| p.idx > f) {
-                    v.push((
-                        "status_published_after_first_final",
-                        format!("item {pos} ({}) is publication #{} but the first final status after subscribing was publication #{}", item_str(item), p.idx, first_final_pub.unwrap_or(0)),
-                    ));
-                }
-                last_idx = Some(last_idx.map_or(p.idx, |l| l.max(p.idx)));
-                if kind.is_final() {
-                    seen_final = true;
                 }
             }
         }
@@ -239,6 +279,7 @@ pub fn judge(sub: &SubRec, pubs: &[Pub], by_serial: &HashMap<u64, usize>) -> Vec
                 }
             }
         }
+        // sequence of values, repeats included
         let got: Vec<Option<u64>> = sub
             .items
             .iter()
@@ -287,7 +328,7 @@ fn perturb(mode: u32, sub: &mut SubRec, pubs: &[Pub]) -> bool {
     match mode {
         1 => {
             // swap two adjacent delivered statuses
-            if sub.items.len() >= 2 && statuses == sub.items.len() {
+            if sub.items.len() >= 2 && statuses == sub.items.len() && item_str(&sub.items[0]) != item_str(&sub.items[1]) {
                 sub.items.swap(0, 1);
                 return true;
             }
@@ -295,10 +336,14 @@ fn perturb(mode: u32, sub: &mut SubRec, pubs: &[Pub]) -> bool {
         }
         2 => {
             // deliver the first status twice
-            if let Some(Item::Status(_)) = sub.items.first() {
-                let d = sub.items[0].clone();
-                sub.items.insert(1, d);
-                return true;
+            if let Some(Item::Status(st)) = sub.items.first() {
+                // only a value that was published exactly once for this tx
+                let serial = ident(st).1;
+                if pubs.iter().filter(|p| p.tx == sub.tx && Some(p.serial) == serial).count() == 1 {
+                    let d = sub.items[0].clone();
+                    sub.items.insert(1, d);
+                    return true;
+                }
             }
             false
         }
@@ -336,6 +381,19 @@ fn perturb(mode: u32, sub: &mut SubRec, pubs: &[Pub]) -> bool {
             if let Some(p) = pubs.iter().find(|p| p.tx != sub.tx && p.full.is_some()) {
                 sub.items.insert(0, Item::Status(p.full.clone().unwrap()));
                 return true;
+            }
+            false
+        }
+        7 => {
+            // swallow the second of two value-identical back-to-back deliveries
+            // ("do not wake subscribers for an unchanged status")
+            if sub.beh == Beh::Drain && sub.complete_until == usize::MAX {
+                for i in 1..sub.items.len() {
+                    if matches!(sub.items[i], Item::Status(_)) && item_str(&sub.items[i]) == item_str(&sub.items[i - 1]) {
+                        sub.items.remove(i);
+                        return true;
+                    }
+                }
             }
             false
         }
@@ -387,13 +445,25 @@ pub fn run_case(report: &Report, shard_seed: u64, case: u64, p: &Params) {
 #[allow(unused_assignments)]
 async fn case_body(report: &Report, rng: &mut StdRng, shard_seed: u64, case: u64, p: &Params) {
     let limit = *pick(rng, &[1usize, 2, 3, 3, 8]);
-    let short_ttl = chance(rng, 30);
     let long_lived = chance(rng, 35);
-    let sub_ttl = if short_ttl { Duration::from_millis(200) } else { Duration::from_secs(3600) };
+    // The two Duration fields of Config are always different, so a mix-up between the
+    // subscription ttl and the status cache ttl inside the service shows: exclusions below
+    // use ONLY subscription_ttl; status_cache_ttl must never matter to a subscriber.
+    // 2.5 s has a sub-second part (a ttl truncated to whole seconds would expire early).
+    let (sub_ttl, cache_ttl) = match rng.gen_range(0..100u32) {
+        // subscription long-lived, cache short: subscribers outlive many cache ttls
+        0..=19 => (Duration::from_secs(3600), Duration::from_millis(40)),
+        20..=29 => (Duration::from_secs(3600), Duration::from_millis(5)),
+        30..=44 => (Duration::from_millis(2500), Duration::from_millis(40)),
+        45..=54 => (Duration::from_millis(2500), Duration::from_millis(300)),
+        // subscription short-lived, cache long
+        55..=84 => (Duration::from_millis(200), Duration::from_secs(5)),
+        _ => (Duration::from_secs(3600), Duration::from_secs(5)),
+    };
     let config = Config {
         max_tx_update_subscriptions: limit,
         subscription_ttl: sub_ttl,
-        status_cache_ttl: Duration::from_secs(5),
+        status_cache_ttl: cache_ttl,
         metrics: false,
     };
     let svc = match harness::start(config, Address::zeroed()).await {
@@ -405,10 +475,13 @@ async fn case_body(report: &Report, rng: &mut StdRng, shard_seed: u64, case: u64
     };
     report.count(&format!("cases.limit_{limit}"));
     report.count(if long_lived { "cases.final_statuses_rare" } else { "cases.final_statuses_frequent" });
-    report.count(if short_ttl { "cases.subscription_ttl_200ms" } else { "cases.subscription_ttl_1h" });
+    report.count(&format!("cases.subscription_ttl_{}ms.cache_ttl_{}ms", sub_ttl.as_millis(), cache_ttl.as_millis()));
 
     let mut pubs: Vec<Pub> = Vec::new();
-    let mut by_serial: HashMap<u64, usize> = HashMap::new();
+    let mut by_serial: HashMap<u64, Vec<usize>> = HashMap::new();
+    let mut last_val: [Option<Val>; NTX] = [None, None, None];
+    let mut values: Vec<Vec<Val>> = vec![Vec::new(); NTX];
+    let mut last_submitted: [Option<u64>; NTX] = [None; NTX];
     let mut subs: Vec<Sub> = Vec::new();
     let mut log: Vec<String> = Vec::new();
     let mut last_kind: [Option<Kind>; NTX] = [None; NTX];
@@ -436,49 +509,15 @@ async fn case_body(report: &Report, rng: &mut StdRng, shard_seed: u64, case: u64
         }};
     }
 
-    for _op in 0..p.ops {
-        if dead {
-            break;
-        }
-        // lagging readers
-        for s in subs.iter_mut() {
-            if let Beh::EveryK(k) = s.rec.beh {
-                s.tick += 1;
-                if s.tick % (k as u32) == 0 {
-                    s.read(1);
-                }
-            }
-        }
-        let r = rng.gen_range(0..100u32);
-        if r < 62 {
-            // ---- publication(s)
-            let n = if chance(rng, 18) { rng.gen_range(2..=4usize) } else { 1 };
-            let tx0 = rng.gen_range(0..NTX);
-            let kind0 = pick_kind(rng, last_kind[tx0], long_lived);
-            // the route is decided by the first entry; extra entries share it
-            let route: &'static str = match kind0 {
-                Kind::Squeezed if chance(rng, 50) => "update_statuses",
-                k if k.is_preconfirmation() && chance(rng, 60) => "update_preconfirmations",
-                _ => "update_status",
-            };
-            let mut entries: Vec<(usize, Kind)> = vec![(tx0, kind0)];
-            if route != "update_status" {
-                for _ in 1..n {
-                    let tx = if chance(rng, 35) { tx0 } else { rng.gen_range(0..NTX) };
-                    let kind = if route == "update_statuses" {
-                        Kind::Squeezed
-                    } else {
-                        *pick(rng, &[Kind::PreSuccess, Kind::PreFailure, Kind::PreSqueezed])
-                    };
-                    entries.push((tx, kind));
-                }
-            }
+    // one API call publishing `entries` (tx, value, tag) through `route`
+    macro_rules! publish_call {
+        ($route:expr, $entries:expr) => {{
+            let route: &'static str = $route;
+            let entries: Vec<(usize, Val, &'static str)> = $entries;
             let mut squeezed = Vec::new();
             let mut preconfs = Vec::new();
-            for (tx, kind) in entries.iter().copied() {
+            for (tx, val, tag) in entries.iter().cloned() {
                 let idx = pubs.len();
-                let serial = next_serial;
-                next_serial += 1;
                 // draining bookkeeping: a publication while the previous one for this
                 // tx has not been drained ends the completeness obligation
                 for s in subs.iter_mut() {
@@ -491,28 +530,36 @@ async fn case_body(report: &Report, rng: &mut StdRng, shard_seed: u64, case: u64
                 }
                 let full = match route {
                     "update_status" => {
-                        let st = make_status(kind, serial, tx_id(tx));
+                        let st = value_status(&val, tx);
                         svc.shared.update_status(tx_id(tx), st.clone());
                         Some(st)
                     }
                     "update_statuses" => {
-                        let sq = make_squeezed(serial, tx_id(tx));
+                        let sq = make_squeezed(val.serial, tx_id(tx));
                         squeezed.push((tx_id(tx), sq.clone()));
                         Some(TransactionStatus::SqueezedOut(Arc::new(sq)))
                     }
                     _ => {
-                        preconfs.push(make_preconf(kind, serial, tx_id(tx)));
+                        preconfs.push(make_preconf(val.kind, val.serial, tx_id(tx)));
                         None
                     }
                 };
                 if first_unbarriered.is_none() {
                     first_unbarriered = Some(idx);
                 }
-                by_serial.insert(serial, idx);
-                pubs.push(Pub { idx, tx, kind, serial, route, full });
-                last_kind[tx] = Some(kind);
-                log.push(format!("pub#{idx} tx{tx} {}#{serial} via {route}", kind.name()));
-                report.count(&format!("published.{}", kind.name()));
+                by_serial.entry(val.serial).or_default().push(idx);
+                pubs.push(Pub { idx, tx, kind: val.kind, serial: val.serial, route, at: Instant::now(), full });
+                last_kind[tx] = Some(val.kind);
+                if val.kind == Kind::Submitted {
+                    last_submitted[tx] = Some(val.serial);
+                }
+                if !values[tx].iter().any(|v| v.serial == val.serial) {
+                    values[tx].push(val.clone());
+                }
+                log.push(format!("pub#{idx} tx{tx} {}#{} via {route} ({tag})", val.kind.name(), val.serial));
+                report.count(&format!("published.{}", val.kind.name()));
+                report.count(&format!("published.value.{tag}"));
+                last_val[tx] = Some(val);
             }
             if !squeezed.is_empty() {
                 svc.shared.update_statuses(squeezed);
@@ -529,6 +576,83 @@ async fn case_body(report: &Report, rng: &mut StdRng, shard_seed: u64, case: u64
             } else {
                 report.count("ops.publish.without_barrier");
                 log.push("(no barrier)".to_string());
+            }
+        }};
+    }
+
+    for _op in 0..p.ops {
+        if dead {
+            break;
+        }
+        // lagging readers
+        for s in subs.iter_mut() {
+            if let Beh::EveryK(k) = s.rec.beh {
+                s.tick += 1;
+                if s.tick % (k as u32) == 0 {
+                    s.read(1);
+                }
+            }
+        }
+        let r = rng.gen_range(0..100u32);
+        if r < 62 {
+            // ---- publication(s)
+            let tx0 = rng.gen_range(0..NTX);
+            let m = rng.gen_range(0..100u32);
+            if m < 14 && last_val[tx0].is_some() {
+                // the very same value again, possibly several times in a row, by any route
+                let val = last_val[tx0].clone().unwrap();
+                let times = if chance(rng, 35) { rng.gen_range(2..=3usize) } else { 1 };
+                for _ in 0..times {
+                    if dead {
+                        break;
+                    }
+                    let route = pick_route(rng, &val);
+                    publish_call!(route, vec![(tx0, val.clone(), "repeat_of_latest")]);
+                }
+            } else if m < 20 && values[tx0].len() >= 2 {
+                // a value this tx had earlier (e.g. the same Submitted after a resubmission cycle)
+                let l = values[tx0].len();
+                let val = values[tx0][l - 1 - rng.gen_range(0..l.min(4))].clone();
+                let route = pick_route(rng, &val);
+                publish_call!(route, vec![(tx0, val, "repeat_of_earlier")]);
+            } else {
+                let n = if chance(rng, 18) { rng.gen_range(2..=4usize) } else { 1 };
+                let kind0 = pick_kind(rng, last_kind[tx0], long_lived);
+                let mut serial0 = next_serial;
+                next_serial += 1;
+                let mut tag0 = "fresh";
+                if kind0 == Kind::Submitted && chance(rng, 10) {
+                    // two transactions submitted in the same second carry identical values
+                    let other = (tx0 + 1 + rng.gen_range(0..NTX - 1)) % NTX;
+                    if let Some(s) = last_submitted[other] {
+                        serial0 = s;
+                        tag0 = "value_shared_with_other_tx";
+                    }
+                }
+                let val0 = Val { kind: kind0, serial: serial0, preconf_family: kind0.is_preconfirmation() && chance(rng, 60) };
+                // the route is decided by the first entry; extra entries share it
+                let route = pick_route(rng, &val0);
+                let mut entries: Vec<(usize, Val, &'static str)> = vec![(tx0, val0, tag0)];
+                if route != "update_status" {
+                    for _ in 1..n {
+                        if chance(rng, 25) {
+                            // the identical entry twice in one batch
+                            let (tx, val, _) = entries.last().cloned().unwrap();
+                            entries.push((tx, val, "repeat_in_batch"));
+                            continue;
+                        }
+                        let tx = if chance(rng, 35) { tx0 } else { rng.gen_range(0..NTX) };
+                        let kind = if route == "update_statuses" {
+                            Kind::Squeezed
+                        } else {
+                            *pick(rng, &[Kind::PreSuccess, Kind::PreFailure, Kind::PreSqueezed])
+                        };
+                        let serial = next_serial;
+                        next_serial += 1;
+                        entries.push((tx, Val { kind, serial, preconf_family: route == "update_preconfirmations" }, "fresh"));
+                    }
+                }
+                publish_call!(route, entries);
             }
         } else if r < 80 {
             // ---- subscribe (a read request: also a barrier)
@@ -568,12 +692,19 @@ async fn case_body(report: &Report, rng: &mut StdRng, shard_seed: u64, case: u64
                             items_after_end: 0,
                             complete_until: usize::MAX,
                             excluded_by: None,
+                            subscribed_at: Instant::now(),
                         },
                         subscribed_at: Instant::now(),
                         stream: Some(stream),
                         undrained: false,
                         tick: 0,
                     });
+                    if last_val[tx].is_some() && chance(rng, 35) {
+                        // the subscriber has just attached; the cache already holds this very value
+                        let val = last_val[tx].clone().unwrap();
+                        let route = pick_route(rng, &val);
+                        publish_call!(route, vec![(tx, val, "repeat_right_after_subscribe")]);
+                    }
                 }
                 Err(e) => {
                     let msg = e.to_string();
@@ -604,7 +735,7 @@ async fn case_body(report: &Report, rng: &mut StdRng, shard_seed: u64, case: u64
             if dead {
                 break;
             }
-            let d = *pick(rng, &[1u64, 10, 60, 100, 150]);
+            let d = *pick(rng, &[1u64, 10, 60, 100, 150, 700]);
             tokio::time::advance(Duration::from_millis(d)).await;
             let now = Instant::now();
             for s in subs.iter_mut() {
@@ -663,7 +794,30 @@ async fn case_body(report: &Report, rng: &mut StdRng, shard_seed: u64, case: u64
         if rec.ended {
             report.count("streams.ended");
         }
+        for w in rec.items.windows(2) {
+            if matches!(w[0], Item::Status(_)) && item_str(&w[0]) == item_str(&w[1]) {
+                report.count(if rec.beh == Beh::Drain {
+                    "delivered.identical_value_back_to_back.draining"
+                } else {
+                    "delivered.identical_value_back_to_back.lagging"
+                });
+            }
+        }
         if rec.beh == Beh::Drain {
+            // owed statuses published when the subscription was already older than the
+            // status cache ttl (but inside the subscription ttl): must still arrive
+            let mut beyond = 0u64;
+            for pb in pubs.iter() {
+                if pb.tx == rec.tx && pb.idx >= rec.subscribed_at_pub && pb.idx < rec.complete_until {
+                    if pb.at.duration_since(rec.subscribed_at) >= cache_ttl {
+                        beyond += 1;
+                    }
+                    if pb.kind.is_final() {
+                        break;
+                    }
+                }
+            }
+            report.add("draining.owed_statuses_beyond_cache_ttl_inside_subscription_ttl", beyond);
             report.add("draining.owed_statuses", owed as u64);
             match rec.excluded_by {
                 None => report.count("draining.fully_judged"),
@@ -736,6 +890,7 @@ pub fn run(args: &Args, report: &Report) {
         report.require("draining.fully_judged", 2000);
         report.require("draining.ended_after_final", 10_000);
         report.require("draining.owed_statuses", 50_000);
+        report.require("draining.owed_statuses_beyond_cache_ttl_inside_subscription_ttl", 5_000);
         report.require("lagging.ended_with_failed_status", 60);
         report.require("ops.subscribe.rejected_limit", 100);
         report.require("ops.publish.update_statuses", 500);
@@ -744,5 +899,11 @@ pub fn run(args: &Args, report: &Report) {
         report.require("excluded.completeness_limited_by.subscription_ttl", 20);
         report.require("delivered.PreconfSqueezedOut", 200);
         report.require("delivered.Submitted", 2000);
+        report.require("published.value.repeat_of_latest", 5_000);
+        report.require("published.value.repeat_of_earlier", 2_000);
+        report.require("published.value.repeat_right_after_subscribe", 1_000);
+        report.require("published.value.repeat_in_batch", 300);
+        report.require("published.value.value_shared_with_other_tx", 300);
+        report.require("delivered.identical_value_back_to_back.draining", 2_000);
     }
 }
